@@ -490,3 +490,15 @@ class local_timezone(object):
 
 
 ZONES = ['UTC0', 'EST5EDT,M3.2.0,M11.1.0', 'GMT0BST,M3.5.0/1,M10.5.0/2', 'IST-5:30', 'NZST-12NZDT,M9.5.0,M4.1.0/3', 'HST10']
+
+
+# sizes for "scale" sub-checks: every small size, and the neighbourhood of the thresholds a fast path, a buffer or a
+# batch size is usually given (powers of two, 100, 1000); bounded enumeration of *values* cannot see a defect that
+# needs a list of 300 items, this ladder can
+SCALE = [1, 2, 3, 4, 5, 6, 7, 8, 9, 10, 11, 12, 13, 15, 16, 17, 20, 24, 25, 31, 32, 33, 50, 63, 64, 65, 99, 100, 101, 127, 128, 129,
+         200, 255, 256, 257, 300, 500, 511, 512, 513, 999, 1000, 1001, 1023, 1024, 1025, 2047, 2048, 2049, 4095, 4096, 4097]
+
+
+def scale(tier, top=None):
+    out = SCALE if tier == 'thorough' else [n for n in SCALE if n <= 1025]
+    return [n for n in out if top is None or n <= top]
